@@ -16,6 +16,7 @@ TRANSLATORS = {
     "Gen/Registry.v": "translator.t_registry",
     "Gen/Match.v": "translator.t_match",
     "Gen/SymbolicDecisions.v": "translator.t_symbolic",
+    "Gen/SymbolicEval.v": "translator.t_symeval",
 }
 
 
